@@ -38,8 +38,13 @@ def build_harness():
     with ThreadPoolExecutor(max_workers=2) as ex:
         a = ex.submit(sh, ["cargo", "build", "--offline"], HARNESS, 1800)
         b = ex.submit(sh, ["cargo", "build", "--offline", "--target-dir", "target-nd", "--config", ND_FLAGS], HARNESS, 1800)
-        (rc, out, _), (rc2, out2, _) = a.result(), b.result()
-    return rc == 0 and rc2 == 0, out + ("\n[no-debug-assertions build]\n" + out2 if rc2 != 0 else ""), time.time() - t
+        # third profile: crate and harness UNOPTIMISED (what a plain `cargo build` / `cargo test` gives), debug assertions on —
+        # only there do deep recursion and large stack frames exist; used by the cases that run in child processes
+        c = ex.submit(sh, ["cargo", "build", "--offline", "--target-dir", "target-o0", "--config", "profile.dev.opt-level=0", "--config", "profile.dev.package.fast_qr.opt-level=0"], HARNESS, 1800)
+        (rc, out, _), (rc2, out2, _), (rc3, out3, _) = a.result(), b.result(), c.result()
+    return (rc == 0 and rc2 == 0 and rc3 == 0,
+            out + ("\n[no-debug-assertions build]\n" + out2 if rc2 != 0 else "") + ("\n[unoptimised build]\n" + out3 if rc3 != 0 else ""),
+            time.time() - t)
 
 
 def regen_tables(workdir):
